@@ -126,13 +126,18 @@ func c14Exec(sc c14script, cf c14conf, context string, r *lib.Run) c14out {
 			out.value = lib.Canon(v)
 			out.nilOK = v == nil
 		}
-	case "condition", "action":
+	case "condition", "or-condition", "action":
 		rule := map[string]interface{}{"when": map[string]interface{}{"pattern": map[string]interface{}{"e": "?e"}}}
 		if sc.Bind != nil {
 			rule["when"] = map[string]interface{}{"pattern": map[string]interface{}{"e": "?x"}}
 		}
 		if context == "condition" {
 			rule["condition"] = map[string]interface{}{"code": sc.Code}
+			rule["action"] = map[string]interface{}{"code": "'done'"}
+		} else if context == "or-condition" {
+			// the script is one disjunct, next to one that always holds
+			rule["condition"] = map[string]interface{}{"or": []interface{}{
+				map[string]interface{}{"code": sc.Code}, map[string]interface{}{"code": "true"}}}
 			rule["action"] = map[string]interface{}{"code": "'done'"}
 		} else {
 			rule["action"] = map[string]interface{}{"code": sc.Code}
@@ -154,7 +159,7 @@ func c14Exec(sc c14script, cf c14conf, context string, r *lib.Run) c14out {
 		switch {
 		case node == nil:
 			out.err = fmt.Sprintf("no condition node (cond=%v)", cond)
-		case context == "condition":
+		case context == "condition" || context == "or-condition":
 			if node.Disposition != core.Complete {
 				out.err = fmt.Sprint(node.Disposition)
 			} else if len(node.Children) > 0 {
@@ -220,7 +225,7 @@ func c14Scenario(sc c14script, cf c14conf, context string, bound int) *lib.Sched
 				vs = append(vs, &lib.Violation{Signature: "C14/" + context + "/" + sig, Summary: fmt.Sprintf("%s: %s (value=%q err=%q elapsed=%v limit=%v early-timer-landings=%d)", name, msg, out.value, out.err, out.elapsed, limit, early)})
 			}
 			wantValue := sc.Value
-			if context == "condition" && sc.Value != "" {
+			if (context == "condition" || context == "or-condition") && sc.Value != "" {
 				wantValue = "kept"
 			}
 			switch {
@@ -272,7 +277,7 @@ func c14Scenarios(tier string) []*lib.SchedScenario {
 			}
 		}
 	}
-	for _, context := range []string{"run", "condition", "action"} {
+	for _, context := range []string{"run", "condition", "or-condition", "action"} {
 		for _, sc := range c14Scripts {
 			if context == "condition" && sc.Name == "binding" {
 				// a condition keeps a binding iff the value is non-null: same path as "value"
@@ -387,7 +392,7 @@ func init() {
 	lib.Register(&lib.Check{
 		ID:    "C14",
 		Level: "model_checking",
-		Rule: "9 script families x 12 timeout settings (Control.JavascriptTimeout {0,5ms,<0} x DefaultJavascriptTimeout {10ms,<0} x JavascriptTimeouts on/off) x 3 contexts (RunJavascript, rule condition, rule action), each executed under the controlled scheduler with virtual time, every schedule with at most 2 deviations (3 thorough) where a deviation is a preemption or the watchdog timer landing early; plus native busy loops against a 20 s real-time deadline; " +
+		Rule: "9 script families x 12 timeout settings (Control.JavascriptTimeout {0,5ms,<0} x DefaultJavascriptTimeout {10ms,<0} x JavascriptTimeouts on/off) x 4 contexts (RunJavascript, rule condition, a disjunct of a rule condition next to one that holds, rule action), each executed under the controlled scheduler with virtual time, every schedule with at most 2 deviations (3 thorough) where a deviation is a preemption or the watchdog timer landing early; plus native busy loops against a 20 s real-time deadline; " +
 			"states = distinct observed outcomes, traces = schedules executed; non-trivial = distinct (scenario, outcome)",
 		Assumptions: []string{
 			"virtual time: code between two scheduling points takes no time; an early timer landing models slow real execution, so a finishing script may then end either way",
